@@ -21,7 +21,7 @@ type ssaFunc struct{ *ssa.Function }
 func edgesMatching(b *ana.Builder, patterns ...string) []ana.CondEdge {
 	var out []ana.CondEdge
 	for _, ce := range b.CondEdges() {
-		if _, ok := ana.MatchAny(ce.Lit, patterns...); ok {
+		if ana.LitMatches(ce.Lit, patterns...) {
 			out = append(out, ce)
 		}
 	}
@@ -524,3 +524,295 @@ func curlPermFns(c *Ctx) (method, perm, generic *ssa.Function) {
 	}
 	return
 }
+
+// ---- gates through helpers
+//
+// A validation step may live in the API function itself or in an unexported
+// helper whose result is tested (`if err := check(x); err != nil { return … }`,
+// `if !valid(x) { … }`). The two forms are the same program; the gate rules
+// treat them alike: passing the edge "helper succeeded" establishes every fact
+// that all successful exits of the helper establish, with the helper's
+// parameters replaced by the argument terms of the call.
+
+type outcome struct {
+	call   *ana.Term // call<H>(args)
+	result int       // result index tested
+	kind   string    // "nil", "nonnil", "true", "false"
+}
+
+// helperOutcome recognises a literal that tests the result of a static repository call.
+func helperOutcome(lit *ana.Term) (outcome, bool) {
+	var x *ana.Term
+	var kind string
+	switch {
+	case lit.Op == "bin" && (lit.Name == "==" || lit.Name == "!=") && len(lit.Args) == 2 && lit.Args[1].Op == "nil":
+		x = lit.Args[0]
+		kind = map[string]string{"==": "nil", "!=": "nonnil"}[lit.Name]
+	case lit.Op == "un" && lit.Name == "!" && len(lit.Args) == 1:
+		x, kind = lit.Args[0], "false"
+	default:
+		x, kind = lit, "true"
+	}
+	res := 0
+	if x.Op == "ext" && len(x.Args) == 1 {
+		res = x.Idx
+		x = x.Args[0]
+	}
+	if x.Op == "obj" && len(x.Args) > 0 {
+		x = x.Args[0]
+	}
+	if x.Op != "call" {
+		return outcome{}, false
+	}
+	h := calleeOf(x)
+	if h == nil || h.Blocks == nil || !ana.InRepo(h) {
+		return outcome{}, false
+	}
+	return outcome{call: x, result: res, kind: kind}, true
+}
+
+// boundBuilder builds terms of the callee in the vocabulary of the caller.
+func (c *Ctx) boundBuilder(call *ana.Term) *ana.Builder {
+	h := calleeOf(call)
+	hb := ana.NewBuilder(c.P, h)
+	hb.Bind = map[*ssa.Parameter]*ana.Term{}
+	for i, p := range h.Params {
+		if i < len(call.Args) {
+			hb.Bind[p] = call.Args[i]
+		}
+	}
+	return hb
+}
+
+// exitsWith lists the exits of the helper that may produce the outcome.
+func exitsWith(hb *ana.Builder, o outcome) []ana.Exit {
+	var out []ana.Exit
+	for _, e := range ana.Exits(hb.Fn) {
+		if e.Panic || o.result >= len(e.Results) {
+			continue
+		}
+		t := hb.Of(e.Results[o.result], e.Instr)
+		may := true
+		switch o.kind {
+		case "nil":
+			may = t.Is("nil") || !definitelyNonNil(t)
+		case "nonnil":
+			may = !t.Is("nil")
+		case "true":
+			may = t.String() != "false"
+		case "false":
+			may = t.String() != "true"
+		}
+		if may {
+			out = append(out, e)
+		}
+	}
+	return out
+}
+
+func definitelyNonNil(t *ana.Term) bool {
+	if t.Op == "obj" && len(t.Args) > 0 {
+		t = t.Args[0]
+	}
+	switch t.Op {
+	case "alloc", "makeslice", "makemap", "closure", "func":
+		return true
+	case "load":
+		return len(t.Args) == 1 && t.Args[0].Op == "global" // package-level sentinel errors
+	case "call":
+		return strings.HasPrefix(t.Name, "fmt.Errorf") || strings.HasPrefix(t.Name, "errors.New")
+	}
+	return false
+}
+
+// passes reports whether every path to blk establishes a fact matching one of
+// the patterns — through an edge of the function itself or through the
+// successful outcome of a helper (recursively, depth-bounded).
+func (c *Ctx) passes(b *ana.Builder, blk *ssa.BasicBlock, patterns ...string) bool {
+	return c.passesD(b, blk, patterns, 0)
+}
+
+func (c *Ctx) passesD(b *ana.Builder, blk *ssa.BasicBlock, patterns []string, depth int) bool {
+	var es []ana.Edge
+	for _, ce := range b.CondEdges() {
+		if ana.LitMatches(ce.Lit, patterns...) {
+			es = append(es, ce.Edge)
+			continue
+		}
+		if depth >= 3 {
+			continue
+		}
+		lits := []*ana.Term{ce.Lit}
+		if ce.Lit.Op == "and" {
+			lits = ce.Lit.Args
+		}
+		for _, lit := range lits {
+			o, ok := helperOutcome(lit)
+			if !ok {
+				continue
+			}
+			hb := c.boundBuilder(o.call)
+			xs := exitsWith(hb, o)
+			all := len(xs) > 0
+			for _, x := range xs {
+				if !c.passesD(hb, x.Instr.Block(), patterns, depth+1) {
+					all = false
+				}
+			}
+			if all {
+				c.R.Fn(ana.ShortFunc(hb.Fn))
+				es = append(es, ce.Edge)
+				break
+			}
+		}
+	}
+	return mustPass(b.Fn, blk, es)
+}
+
+// rejectEdges lists the edges that are legitimate reasons to fail: edges whose
+// literal matches a reject pattern, and edges "helper failed" where every
+// failing exit of the helper is itself reachable only through such edges.
+func (c *Ctx) rejectEdges(b *ana.Builder, patterns ...string) []ana.Edge {
+	return c.rejectEdgesD(b, patterns, 0)
+}
+
+func (c *Ctx) rejectEdgesD(b *ana.Builder, patterns []string, depth int) []ana.Edge {
+	var es []ana.Edge
+	for _, ce := range b.CondEdges() {
+		if ana.LitMatches(ce.Lit, patterns...) {
+			es = append(es, ce.Edge)
+			continue
+		}
+		if depth >= 3 {
+			continue
+		}
+		lits := []*ana.Term{ce.Lit}
+		if ce.Lit.Op == "and" {
+			continue // failing a conjunction is legitimate only if every conjunct's failure is (handled by LitMatches on `or`)
+		}
+		for _, lit := range lits {
+			o, ok := helperOutcome(lit)
+			if !ok || (o.kind != "nonnil" && o.kind != "false") {
+				continue
+			}
+			hb := c.boundBuilder(o.call)
+			xs := exitsWith(hb, o)
+			if len(xs) == 0 {
+				continue
+			}
+			avoid := ana.ReachableAvoiding(hb.Fn, c.rejectEdgesD(hb, patterns, depth+1))
+			all := true
+			for _, x := range xs {
+				if avoid[x.Instr.Block()] {
+					all = false
+				}
+			}
+			if all {
+				es = append(es, ce.Edge)
+			}
+		}
+	}
+	return es
+}
+
+// ---- virtual exits: tail calls into helpers are looked through
+
+type frame struct {
+	B   *ana.Builder
+	Blk *ssa.BasicBlock
+}
+
+// vexit is an exit of an API function after looking through tail calls
+// (`return helper(args)`): Frames lists, outermost first, the call sites that
+// lead to the returning block; Results are in the vocabulary of the API function.
+type vexit struct {
+	Frames  []frame
+	Instr   ssa.Instruction // the innermost return / panic
+	Panic   bool
+	Results []*ana.Term
+}
+
+func (v vexit) top() frame { return v.Frames[0] }
+
+// vexits lists the exits of b.Fn; an exit that returns exactly the results of one
+// static repository call made in the returning block's function is replaced by that callee's exits.
+func (c *Ctx) vexits(b *ana.Builder) []vexit { return c.vexitsD(b, nil, 0) }
+
+func (c *Ctx) vexitsD(b *ana.Builder, outer []frame, depth int) []vexit {
+	var out []vexit
+	for _, e := range ana.Exits(b.Fn) {
+		frames := append(append([]frame{}, outer...), frame{b, e.Instr.Block()})
+		if e.Panic {
+			out = append(out, vexit{Frames: frames, Instr: e.Instr, Panic: true})
+			continue
+		}
+		var res []*ana.Term
+		for _, r := range e.Results {
+			res = append(res, b.Of(r, e.Instr))
+		}
+		if call := tailCall(res); call != nil && depth < 3 {
+			if h := calleeOf(call); h != nil && h.Blocks != nil && ana.InRepo(h) && h != b.Fn {
+				c.R.Fn(ana.ShortFunc(h))
+				out = append(out, c.vexitsD(c.boundBuilder(call), frames, depth+1)...)
+				continue
+			}
+		}
+		out = append(out, vexit{Frames: frames, Instr: e.Instr, Results: res})
+	}
+	return out
+}
+
+// tailCall: results are exactly call / (ext#0(call), ext#1(call), …) of one call term.
+func tailCall(res []*ana.Term) *ana.Term {
+	if len(res) == 0 {
+		return nil
+	}
+	strip := func(t *ana.Term) *ana.Term {
+		if t.Op == "obj" && len(t.Args) > 0 {
+			return t.Args[0]
+		}
+		return t
+	}
+	if len(res) == 1 {
+		if t := strip(res[0]); t.Op == "call" {
+			return t
+		}
+		return nil
+	}
+	var call *ana.Term
+	for i, r := range res {
+		t := strip(r)
+		if t.Op != "ext" || t.Idx != i || len(t.Args) != 1 {
+			return nil
+		}
+		ct := strip(t.Args[0])
+		if ct.Op != "call" || (call != nil && call.V != ct.V) {
+			return nil
+		}
+		call = ct
+	}
+	return call
+}
+
+// vpasses: some frame of the virtual exit passes a matching gate.
+func (c *Ctx) vpasses(v vexit, patterns ...string) bool {
+	for _, f := range v.Frames {
+		if c.passes(f.B, f.Blk, patterns...) {
+			return true
+		}
+	}
+	return false
+}
+
+// vrejectClosed: the exit is reachable only through a reject edge (in some frame).
+func (c *Ctx) vrejectClosed(v vexit, patterns ...string) bool {
+	for _, f := range v.Frames {
+		if !ana.ReachableAvoiding(f.B.Fn, c.rejectEdges(f.B, patterns...))[f.Blk] {
+			return true
+		}
+	}
+	return false
+}
+
+// vpos is the source position of the innermost return.
+func (c *Ctx) vpos(v vexit) string { return c.ipos(v.Instr) }
